@@ -83,8 +83,97 @@ def replay_gen(pid, path):
     return 1 if v.violations else 0
 
 
+
+# ======================================================================= comparison family
+BP_Q = [("bp_w6a2", "MCBitParallel.tla", "MCBitParallel_w6a2.cfg"), ("bp_w5a3", "MCBitParallel.tla", "MCBitParallel_w5a3.cfg")]
+BP_T = BP_Q + [("bp_w8a2", "MCBitParallel.tla", "MCBitParallel_w8a2.cfg"), ("bp_w6a3", "MCBitParallel.tla", "MCBitParallel_w6a3.cfg")]
+LAWS = [("laws_strings", "MCCompareLaws.tla", "MCCompareLaws_strings.cfg"), ("laws_hashes", "MCCompareLaws.tla", "MCCompareLaws_hashes.cfg")]
+CMP = {
+    "C02": {"modes": ["pairs", "ss"], "mc": {"quick": LAWS[1:] + BP_Q[:1], "thorough": LAWS + BP_T},
+            "rule": "hash pairs (raw texts with runs, short and long, related by edits / rotation / run insertion / crossing, all block size relations, all 31x31 index pairs) through every comparison entry point in both orders; plus the per-block-hash score on all pairs of normalised strings over {0,1} of length 7..8(9) x effective index {0..4,31}. non-trivial = pairs that are comparison candidates (a block hash pair shares a 7-gram, so the edit distance / scaling / capping path is taken)",
+            "nontrivial": ("cmp", "candidate_pairs")},
+    "C08": {"modes": ["ed"], "mc": {"quick": BP_Q, "thorough": BP_T},
+            "rule": "edit distance through BlockHashPositionArray (fresh, reversed operands, re-initialised) and through comparison targets: exhaustively all pairs over {0,1} up to length 6(8) and {0,1,2} up to 4(5), plus random/structured pairs over 64 symbols up to length 64 (runs, alternating patterns, shifted copies, subsequences). non-trivial = all pairs (every pair runs the recurrence); counted = pairs",
+            "nontrivial": ("ed", "pairs")},
+    "C09": {"modes": ["sub"], "mc": {"quick": BP_Q, "thorough": BP_T},
+            "rule": "has_common_substring / is_comparison_candidate with a 7-gram planted at every (offset in a, offset in b) for lengths {7,8,14,15,64} (thorough: {7,8,13,14,15,32,63,64}), near misses of 6, random related pairs, repeated occurrences. non-trivial = planted positives",
+            "nontrivial": ("sub", "planted_positive")},
+    "C10": {"modes": ["pairs"], "mc": {"quick": LAWS, "thorough": LAWS},
+            "rule": "the pair events of C02 (score both orders, candidate both orders, windows / numeric windows / index windows of the left operand); the laws are theorems of the spec on complete small domains (MC) and are re-checked on the recorded values. non-trivial = candidate pairs",
+            "nontrivial": ("cmp", "candidate_pairs")},
+    "C17": {"modes": ["reuse"], "mc": {"quick": [("target", "MCTarget.tla", "MCTarget.cfg")], "thorough": [("target", "MCTarget.tla", "MCTarget.cfg")]},
+            "rule": "histories of init_from / From / clear over pools of hashes of differing lengths and alphabets (empty, shorter, reversed, superset), observed after every step: is_valid, full_eq(fresh), is_equiv / compare / candidate against every pool member, all 64 masks; plus the clustering loop (one target re-initialised thousands of times). non-trivial = re-initialisation steps",
+            "nontrivial": ("reuse", "steps")},
+    "C20": {"modes": ["tables"], "mc": {"quick": LAWS[:1], "thorough": LAWS[:1]},
+            "rule": "complete finite domains dumped from the implementation and judged row by row by TLC: the set {x in u32 : is_valid(x)} (all 2^32 swept), all 256 logarithms, all 31x31 relations, raw score on all (l1,l2,d), score cap on 0..31 x 0..64 x 0..64. non-trivial = table rows",
+            "nontrivial": None},
+}
+
+
+def _cmp_violation(v, r, cache):
+    evs = cache.setdefault(r["file"], read_events(r["file"]))
+    k = r["rejected_at"]
+    unit = unit_of(evs, k, None)
+    what = "comparison trace rejected at event %d of %s: observed %s ; %s" % (k, os.path.basename(r["file"]), json.dumps(evs[k - 1])[:500], (r["mismatch"] or ["no spec step matches this event"])[0][:600])
+    v.violation(what, {"family": "cmp", "property": v.pid, "events": unit[-40:] if evs[k - 1]["ev"] not in ("tobs", "pobs") else unit, "offending_event": evs[k - 1], "spec": r["mismatch"][:1]})
+
+
+def check_cmp(pid, tier):
+    v = Verdict(pid, tier)
+    cfgp = CMP[pid]
+    binp = build_harness()
+    files = []
+    stats = {}
+    for mode in cfgp["modes"]:
+        out = fresh_dir("tr_%s_%s" % (pid, mode))
+        stats.update(run_harness(binp, ["cmp", mode, "--seed", str(seed()), "--tier", tier, "--out", out, "--shards", str(TV_PAR)]))
+        files += sorted(glob.glob(os.path.join(out, "*.ndjson")))
+    for name, mod, cfg in cfgp["mc"][tier]:
+        v.add_mc(run_mc(name, mod, cfg))
+    res = run_tv("TraceCmp.tla", "TraceCmp.cfg", files, timeout=3000)
+    v.add_tv("TraceCmp:" + "+".join(cfgp["modes"]), res)
+    cache = {}
+    for r in res:
+        if not r["accepted"]:
+            _cmp_violation(v, r, cache)
+    nev = sum(1 for f in files for _ in open(f))
+    v.cov["evaluations"] = nev
+    nt = cfgp["nontrivial"]
+    v.cov["distinct_nontrivial"] = stats.get(nt[0], {}).get(nt[1], 0) if nt else nev
+    v.cov["driver_stats"] = stats
+    v.cov["rule"] = cfgp["rule"]
+    v.cov["exhaustive"] = pid == "C20"
+    evs = read_events(files[0])
+    v.cov["samples"] = [json.dumps(e)[:500] for e in evs[:3]]
+    v.assumptions = ["TLC/SANY 1.8.0, CommunityModules", "Compare.tla transcribes ssdeep 2.14.1 fuzzy_compare / score_strings / edit_distn (insert/delete only)", "the harness only serialises what the API returned (radix changes for 64-bit values)"]
+    return v.finish()
+
+
+def replay_cmp(pid, path):
+    v = Verdict(pid, "quick")
+    obj = json.load(open(path))
+    binp = build_harness()
+    out = fresh_dir("replay_" + pid)
+    inp = os.path.join(out, "in.ndjson")
+    with open(inp, "w") as f:
+        for e in obj["events"]:
+            f.write(json.dumps(e) + "\n")
+    run_harness(binp, ["replay", "cmp", inp, "--out", out])
+    files = sorted(glob.glob(os.path.join(out, "**", "*.ndjson"), recursive=True))
+    files = [x for x in files if not x.endswith("in.ndjson")]
+    res = run_tv("TraceCmp.tla", "TraceCmp.cfg", files)
+    cache = {}
+    for r in res:
+        if not r["accepted"]:
+            _cmp_violation(v, r, cache)
+    return 1 if v.violations else 0
+
+
 CHECKS = {"C01": check_gen, "C03": check_gen, "C12": check_gen, "C13": check_gen}
 REPLAY = {"C01": replay_gen, "C03": replay_gen, "C12": replay_gen, "C13": replay_gen}
+for _p in CMP:
+    CHECKS[_p] = check_cmp
+    REPLAY[_p] = replay_cmp
 
 
 def replay(pid, path):
